@@ -129,7 +129,9 @@ def scanLevel (ts : Types) (u : UTab) (current : List (List Nat × Nat)) (count 
           (fields ++ (if dup then [fld, fld] else [fld]), next, nextCount, vis)
         else
           let c := (nextCount.lookup ft).getD 0
-          let nextCount' := (ft, c + 1) :: nextCount.filter (·.1 != ft)
+          -- multiplicity carries over from a parent type that is itself reached more than once
+          let c' := if (count.lookup fty).getD 0 > 1 then 2 else c + 1
+          let nextCount' := (ft, c') :: nextCount.filter (·.1 != ft)
           (fields, if c == 0 then next ++ [(route, ft)] else next, nextCount', vis)) (fields, next, nextCount, vis)
     | _ => (fields, next, nextCount, vis)) ([], [], [], visited)
 
